@@ -598,8 +598,96 @@ def record_and_validate(ctx, pid, n_worlds, n_sessions):
                           {'world': mod, 'trace': traces[idx], 'viol': viol})
 
 
+# ---- extension: the FitInfoFile protocol (spec/FileProtocol.tla) ------------------------------
+def protocol_chunk(hists, root, seed):
+    from sedfitter.fit_info import FitInfoFile
+    from .fitkernel import World, names_for
+    col = Collector()
+    wa = World(root, names_for(2), [[0, 0], [4, -4]], [3, 1], 0, 8)
+    wb = World(root, names_for(2), [[0, 0], [4, -4]], [3, 1], 0, 8)
+    try:
+        src = {'flag': [1, 1], 'Y': [1, 2], 'W': [1, 1], 'P': [0, 0]}
+        for hi, hist in enumerate(hists):
+            path = os.path.join(wa.dir, 'proto_%d.fitinfo' % hi)
+            fh = None
+            serial = 0
+            for si, st in enumerate(hist):
+                op = st['op']
+                try:
+                    if op == 'open_w':
+                        fh = FitInfoFile(path, 'w')
+                        got = 'ok'
+                    elif op == 'open_r':
+                        if not os.path.exists(path):
+                            open(path, 'wb').close()
+                        try:
+                            fh = FitInfoFile(path, 'r')
+                            got = 'ok'
+                        except Exception:
+                            fh = None
+                            got = 'error'
+                    elif op in ('write_m1', 'write_m2'):
+                        serial += 1
+                        w = wa if op == 'write_m1' else wb
+                        info = w.fit(fw.make_source(src, name='s%d' % serial))
+                        try:
+                            fh.write(info)
+                            got = 'ok'
+                        except ValueError:
+                            got = 'error'
+                    elif op == 'iterate':
+                        try:
+                            got = [int(r.source.name[1:]) for r in fh]
+                        except ValueError:
+                            got = 'error'
+                    elif op == 'meta':
+                        try:
+                            md = fh.meta.model_dir
+                            got = 1 if md == wa.dir else (2 if md == wb.dir else -1)
+                        except ValueError:
+                            got = 0
+                    elif op == 'close':
+                        fh.close()
+                        fh = None
+                        got = 'ok'
+                    else:
+                        raise MachineryError('unknown op %r' % op)
+                except MachineryError:
+                    raise
+                except Exception as e:
+                    got = 'raised %r' % (e,)
+                col.replayed += 1
+                if got != st['res']:
+                    col.violation('C10:protocol:%s' % op, 'FitInfoFile history %r: step %d (%s) gave %r, spec %r' % ([s_['op'] for s_ in hist], si, op, got, st['res']),
+                                  {'history': hist, 'step': si, 'observed': got})
+                    break
+            if fh is not None:
+                try:
+                    fh.close()
+                except Exception:
+                    pass
+            if os.path.exists(path):
+                os.remove(path)
+    finally:
+        wa.close()
+        wb.close()
+    return col
+
+
+def protocol_replay(ctx):
+    res = model_check(ctx, 'FileProtocol', 'MC_FileProtocol.cfg', timeout=600, coverage=False)
+    hists = [h_ for h_ in res['emitted'] if isinstance(h_, list)]
+    if not hists:
+        raise MachineryError('no FileProtocol behaviours')
+    ctx.notes['protocol_histories'] = len(hists)
+    root = ctx.mkdtemp('proto')
+    for col in pmap(lambda c: protocol_chunk(c, root, ctx.seed), hists, chunks_per_proc=1):
+        col.merge_into(ctx)
+
+
 def run_C10(ctx):
     run_common(ctx, 'C10')
+    protocol_replay(ctx)
     record_and_validate(ctx, 'C10', 8 if not ctx.thorough else 48, 8 if not ctx.thorough else 20)
     ctx.assumptions += ['runs that write no record are outside the property and not replayed',
                         'thresholds are chosen off every attained chi^2 (UnitOK assumption checked by TLC)']
